@@ -177,7 +177,7 @@ PROPS = {
         assumptions=['LowerLaw: new < bg -> float32(new) - w < float32(bg), true for the non-negative weights that occur', 'the float64 mean is within one count of the exact mean (validated by the monitor, not proved)', 'the clause "background and threshold stored with a recording are those at the trigger" is covered by the e2e stream'],
     ),
     'C10': dict(
-        lean=['Props.C10'],
+        lean=['Props.C10', 'Props.C10Gen', 'Props.C10Glob', 'Props.FactsMain'],
         streams=['fs', 'names', 'e2e', 'daemon'],
         project={'fs': r'^< (?!sys write)', 'e2e': r'^$', 'daemon': r'^< (ls|start|dir)'},
         rule='op sequences of the real motion, test and continuous CPTVFileRecorders (start / write n frames / stop / discard) run under strace; every '
@@ -188,7 +188,7 @@ PROPS = {
         assumptions=['time stamps of recordings in one directory are pairwise distinct (enforced by the F9 fix)', 'constant-recordings/ is not the output directory proper'],
     ),
     'C14': dict(
-        lean=['Props.C14', 'Props.C14Daemons', 'Props.FactsWiring', 'Props.Pipeline'],
+        lean=['Props.C14', 'Props.C14Daemons', 'Props.FactsWiring', 'Props.FactsMain', 'Props.Pipeline'],
         streams=['e2e', 'leptond', 'leptondloop', 'processor', 'detector', 'daemon'],
         project={'processor': r'^< det', 'detector': r'^$', 'daemon': r'^< (second|conn|header|start|info)'},
         rule=E2E_RULE + '; leptond stream: the real sendCameraSpecs of the camera daemon run on a lepton3.Lepton3 whose I2C command interface is a register-level fake (serials up to 2^63-1, '
@@ -206,7 +206,7 @@ PROPS = {
         assumptions=['in-range settings (fps, preview-secs < 256; strings <= 255 bytes; motion YAML <= 255 bytes)', 'throttle refill disabled in e2e runs (min-refill 100 h, real clock)'],
     ),
     'C18': dict(
-        lean=['Props.C18', 'Props.C18Roll', 'Props.FactsWiring'],
+        lean=['Props.C18', 'Props.C18Roll', 'Props.FactsWiring', 'Props.FactsWriterMain'],
         streams=['writer'],
         rule='socket byte streams (YAML header + frames of 1 B .. 39 KiB, 0..700 frames, optionally cut inside the last frame) written in random segments with stalls, '
              'GOMAXPROCS 1/2/4/16, through net.Pipe into the real thermal-writer handleConn + writer goroutines; the file is read back byte for byte; '
@@ -300,7 +300,7 @@ MANIFEST_TEXT = {
         text='Theorems over a model of the file-system calls of the file recorder (names T = .cptv.temp, S = .cptv.temp.tmp, F = .cptv; start/write/stop/discard '
              'step lists as go-cptv really issues them): for every interleaving of recordings obeying the recorder protocol and EVERY prefix of the resulting call '
              'sequence (= every crash point) every .cptv name is a complete recording never written in place; after start-up clean-up of any crash state only complete '
-             '.cptv files remain; the clean-up glob (regenerated from the source) matches every T and S name and no F name for all time stamps. The model is compared with '
+             '.cptv files remain; the same over EVERY HISTORY OF LIVES of the daemon (Props.C10Gen: any number of runs, each killed at an arbitrary system call and followed by the start-up clean-up of the next start, ids fresh: at every instant of every life every .cptv name is complete, every clean-up leaves complete recordings only, and a finished recording is never lost by later lives); the clean-up glob (regenerated from the source) matches every T and S name and no F name for all time stamps. The model is compared with '
              'the real recorder under strace (every system call a crash point), finished files are decoded with the standard reader, the real clean-up runs on the crash state.',
         note=_COMMON_NOTE + 'process kill only, no power-loss durability; the kernel rename/unlink atomicity and strace are trusted; gzip/CPTV codec validated by decoding, not proved.',
         technique='Lean 4 proof (invariant over operation boundaries + all prefixes of the step lists; glob matcher lemmas) + differential correspondence under strace',
